@@ -1057,6 +1057,18 @@ where
             return CmdReplyFuture::Left(reply_receiver);
         }
 
+        // EVAL script numkeys key [key ...]
+        let max_key_num = cmd_ctx
+            .get_cmd()
+            .get_command_len()
+            .map(|len| len.saturating_sub(3))
+            .unwrap_or(0);
+        if key_num > max_key_num {
+            let err_msg = b"ERR Number of keys can't be greater than number of args";
+            cmd_ctx.set_resp_result(Ok(Resp::Error(err_msg.to_vec())));
+            return CmdReplyFuture::Left(reply_receiver);
+        }
+
         CmdReplyFuture::Right(Box::pin(self.handle_multi_key_eval_cmd(
             cmd_ctx,
             reply_receiver,
